@@ -141,3 +141,20 @@ Proof.
   assert (~ Wc + Wn == 0) by (intro E; rewrite E in Hs; apply (Qlt_irrefl 0); exact Hs).
   rewrite Ec, En. split; field; auto.
 Qed.
+
+(* ---- momentum variance vs. kinetic energy ---- *)
+Lemma mass_consistent_variance s im : 0 < im -> mass_consistent s im -> s * s == / im.
+Proof.
+  unfold mass_consistent. intros Hp H.
+  assert (Hne : ~ im == 0) by (intro E; rewrite E in Hp; apply (Qlt_irrefl 0); exact Hp).
+  setoid_replace (/ im) with ((s * s * im) * / im) by (rewrite H; ring).
+  field. exact Hne.
+Qed.
+Lemma mass_consistent_equipartition s im : mass_consistent s im -> expected_kinetic s im == 1 # 2.
+Proof.
+  unfold mass_consistent, expected_kinetic. intro H.
+  setoid_replace (im * (s * s)) with (s * s * im) by ring. rewrite H. reflexivity.
+Qed.
+(* drawing with the square root of the INVERSE mass (s*s = im) is consistent only for unit mass *)
+Lemma inverse_sqrt_inconsistent s im : s * s == im -> mass_consistent s im -> im * im == 1.
+Proof. unfold mass_consistent. intros E H. rewrite E in H. exact H. Qed.
